@@ -30,7 +30,7 @@ def gen_module(wd, name, classes, extends, emit):
 
 def gen_cfg(wd, name, spec, maxops, extra):
     lines = ["SPECIFICATION " + spec, "CONSTANTS", "  Classes <- GClasses", "  Kind <- GKind", "  Module <- GModule",
-             "  Cfgs = {1, 2}", "  Objs = {1, 2, 3}", '  Variants = {"full", "perm", "subset", "superset", "dup"}',
+             "  Cfgs = {1, 2}", "  Objs = {1, 2, 3}", '  Variants = {"full", "perm", "subset", "superset", "dup", "inner"}',
              "  Tols = {1, 2}", "  MaxOps = %d" % maxops, "  SharedSolver = FALSE", "CHECK_DEADLOCK FALSE"] + extra
     core.write_cfg(os.path.join(wd, name), lines)
 
